@@ -815,7 +815,7 @@ return 1;""",
         else:
 #            linenumber = options.get("__line__", "?")
             output.append("#error no py_statements getter for {}"
-                          .format(stmts0))
+                          .format(stmt0))
         output.append("-}")
 
         ########################################
@@ -843,7 +843,7 @@ return 1;""",
                     "setter", intent_blk, fmt, output)
             else:
                 output.append("#error no py_statements setter for {}"
-                              .format(stmts0))
+                              .format(stmt0))
             # XXX - allow user to add error checks on value
             output.append("return 0;\n-}")
 
